@@ -39,9 +39,20 @@ TYPES = {
     'PVT': ('P', VT, 'i'),
     'OV': ('O', [VT, 'i']),
     'UV': ('U', VT),
+    # shared_ptr-only types (copyable: also usable as keys of the hash containers and in TWIN cases, see `al`)
+    'SI': ('U', 'i'),
+    'SS': ('U', 's'),
+    'TS': ('T', [('U', 'i'), 's', ('U', 's')]),
+    'PS': ('P', ('U', 's'), 'i'),
+    'OS': ('O', [('U', 'i'), 'i']),
 }
 TUPLE_OPERATORS_TYPES = ('P', 'Q', 'R', 'E', 'N', 'M', 'OV')
-POINTER_TYPES = ('UP', 'SQ', 'TU', 'PV', 'UV')
+POINTER_TYPES = ('UP', 'SQ', 'TU', 'PV', 'UV', 'SI', 'SS', 'TS', 'PS', 'OS')
+SHARED_ONLY_TYPES = ('SI', 'SS', 'SQ', 'TS', 'PS', 'OS')
+# ownership forms of a pointer value (letter between U and '(' on the wire): '' make_unique/make_shared, c copy of another
+# shared_ptr, n adopted from new, a NON-OWNING alias (aliasing constructor, empty owner), o owning alias, u from a unique_ptr, k moved
+OWN_FORMS = ('', '', 'c', 'n', 'a', 'a', 'o', 'u', 'k')
+TWIN_FORMS = 'caok'
 
 def hx(s):
     return s.encode("latin-1").hex() if s else "-"
@@ -136,7 +147,7 @@ def count_values(sh, grid):
 
 def all_values(sh, grid):
     """every value of the shape over the grid, as abstract trees:
-       ('L', kind, text) | ('T'|'O', [..]) | ('P', a, b) | ('V', k, v) | ('U', v)"""
+       ('L', kind, text) | ('T'|'O', [..]) | ('P', a, b) | ('V', k, v) | ('U', v[, ownership form])"""
     if is_leaf(sh):
         return [('L', sh, t) for t in grid[sh]]
     if sh[0] in ('T', 'O'):
@@ -160,7 +171,20 @@ def random_value(sh, grid, rng):
             return ('Z',)
         k = rng.randrange(len(sh[1]))
         return ('V', k, random_value(sh[1][k], grid, rng))
-    return ('U', random_value(sh[1], grid, rng))
+    return ('U', random_value(sh[1], grid, rng), rng.choice(OWN_FORMS))
+
+
+def reform(v, rng):
+    """v with the ownership form of every pointer chosen afresh (the pointees stay what they are)"""
+    if v[0] in ('L', 'Z'):
+        return v
+    if v[0] in ('T', 'O'):
+        return (v[0], [reform(c, rng) for c in v[1]])
+    if v[0] == 'P':
+        return ('P', reform(v[1], rng), reform(v[2], rng))
+    if v[0] == 'V':
+        return ('V', v[1], reform(v[2], rng))
+    return ('U', reform(v[1], rng), rng.choice(OWN_FORMS))
 
 
 def leaf_paths(v, path=()):
@@ -189,7 +213,7 @@ def replace_at(v, path, f):
         return ('P', replace_at(v[1], rest, f), v[2]) if i == 0 else ('P', v[1], replace_at(v[2], rest, f))
     if v[0] == 'V':
         return ('V', v[1], replace_at(v[2], rest, f))
-    return ('U', replace_at(v[1], rest, f))
+    return ('U', replace_at(v[1], rest, f)) + tuple(v[2:])
 
 
 def tokens(v):
@@ -234,7 +258,7 @@ class C16(Check):
     technique = ("Coq proof over an executable model of hash.hpp / tuple_operators.hpp / unordered.hpp (nested induction over value trees, "
                  "64-bit word arithmetic written mod 2^64) + translator-checked constants (Tie_C16) + extraction-based differential test "
                  "of the exact 64-bit hash words, the six operators and container look-ups against the C++")
-    level_text = ("Eighteen theorems in Coq, for ALL values built from leaves, std::tuple, std::pair, std::variant, smart pointers and "
+    level_text = ("Twenty theorems in Coq (incl.: hash and == do not depend on the OWNERSHIP FORM of the smart pointers in a value), for ALL values built from leaves, std::tuple, std::pair, std::variant, smart pointers and "
                   "tuple_operators types in any nesting, any leaf type and any std::hash: equal values hash equal; every hash is a 64-bit word; "
                   "hash_combine is injective in the combined value for a fixed seed (any magic constant / shifts), hence a changed LAST component, "
                   "pair.second or variant alternative value always changes the hash, and a changed component at any position changes the running "
@@ -262,7 +286,12 @@ class C16(Check):
                   "Smart pointers: equality in the model is pointee equality (address equality "
                   "implies it); ordering of pointers is not modelled. The variant index is not hashed by the code (variant<int,long>{1} and {1L} "
                   "collide by construction) - allowed by the property. The correspondence is bounded-exhaustive + sampled, not proved")
-    rule = ("values of 23 C++ types (6 tuple_operators structs incl. nested, empty and mixed-width ones; tuples, pairs, variants, unique_ptr/"
+    rule = ("pointer VALUES in seven OWNERSHIP FORMS (make_unique/make_shared, copy of another shared_ptr, adopted from new, NON-OWNING alias "
+            "made by the aliasing constructor with an empty owner (non-null, use_count()==0), owning alias, made from a unique_ptr, moved; never null) "
+            "wherever a pointer occurs (alone, tuple / pair / tuple_operators member, pointee variant / object), pairs with equal pointees in different "
+            "forms, and TWIN cases on 6 shared_ptr-only types (x and a y whose pointers are x's own pointers re-made in another form: x == y, equal "
+            "hashes, y found as key x of unordered_set / unordered_map and not accepted as a second key); "
+            "values of 28 C++ types (6 tuple_operators structs incl. nested, empty and mixed-width ones; tuples, pairs, variants, unique_ptr/"
             "shared_ptr and tuples/pairs of them; a variant with an alternative whose constructor throws, driven into valueless_by_exception(), "
             "alone and as tuple / pair / tuple_operators member / pointee) over small grids of leaves (ints {-1,0,1,2^31-1}, strings {'',a,b,ab}, doubles {-0.0,0.0,1.5}, "
             "plus LONG strings of lengths 15..17, 31..33, 63..65, 127..129, 255..257, 1000, 4096 in pairs differing in one character (first, last, "
@@ -306,7 +335,7 @@ class C16(Check):
             return "V%d(" % v[1] + self.wire(v[2]) + ")"
         if v[0] == 'Z':
             return "Z"
-        return "U(" + self.wire(v[1]) + ")"
+        return "U" + (v[2] if len(v) > 2 else "") + "(" + self.wire(v[1]) + ")"
 
     # ---- generators ----
     def related(self, sh, x, grid, rng):
@@ -317,6 +346,8 @@ class C16(Check):
             y = self.toggle_valueless(sh, x, grid, rng)
             if y is not None:
                 return y
+        if "'U'" in repr(sh) and rng.random() < 0.3:
+            return reform(x, rng)       # the same pointees in other ownership forms: must hash equal
         if k < 0.15 or not paths:
             return x
         if k < 0.55:
@@ -358,7 +389,7 @@ class C16(Check):
             return None if y is None else ('P', x[1], y)
         if sh[0] == 'U':
             y = self.toggle_valueless(sh[1], x[1], grid, rng)
-            return None if y is None else ('U', y)
+            return None if y is None else ('U', y) + tuple(x[2:])
         return None
 
     @staticmethod
@@ -412,6 +443,14 @@ class C16(Check):
         # a copy of a shared_ptr
         for _ in range(20 if quick else 200):
             yield "a SQ %s" % W(random_value(TYPES['SQ'], grid, rng)), "alias"
+        # TWINS: y = x with every outermost shared_ptr re-made, in another ownership form, from the one in x (same address, so
+        # x == y in C++): equal, hash equal, found as the key x of a set / map, not accepted as a second key
+        for t in SHARED_ONLY_TYPES:
+            sh = TYPES[t]
+            for _ in range(60 if quick else 600):
+                x = random_value(sh, grid, rng)
+                forms = "".join(rng.choice(TWIN_FORMS) for _ in range(rng.choice([1, 2, 2, 3])))
+                yield "al %s %s %s" % (t, W(x), forms), "twin"
         # (iii) triples: all of P in the thorough tier, a sample otherwise; samples for the other comparable types
         if quick:
             for _ in range(6000):
@@ -506,6 +545,8 @@ class C16(Check):
             return len({w[2], w[3], w[4]}) == 3
         if w[0] == "h":
             return w[3] != w[4] and w[2][0] != "n"     # really changed, after a first use
+        if w[0] == "al":
+            return True
         if w[0] in ("set", "map"):
             ins = set(w[2].split(";")) if w[2] != "." else set()
             probes = set(w[3].split(";")) if w[3] != "." else set()
@@ -523,6 +564,8 @@ class C16(Check):
             return ("h", w[1], w[2], min(n, 21), " ".join(o[3:10]), len(o) > 2 and o[1] == o[2])
         if w[0] in ("set", "map") and len(o) >= 2:
             return (w[0], w[1], min(int(o[1]), 6) if o[1].isdigit() else o[1])
+        if w[0] == "al" and len(o) >= 4:
+            return ("al", w[1], w[3], "Ua(" in w[2], o[1], o[2] == o[3])
         return (w[0], iobs[:20])
 
     def shrink(self, case):
@@ -535,7 +578,14 @@ class C16(Check):
                 yield " ".join(w[:5] + [";".join(vs[:len(vs) // 2])])
                 for i in range(len(vs)):
                     yield " ".join(w[:5] + [";".join(vs[:i] + vs[i + 1:]) or "."])
-        if w[0] in ("p", "t", "a", "h"):
+        if w[0] == "al" and len(w[3]) > 1:
+            for ch in sorted(set(w[3])):
+                yield " ".join(w[:3] + [ch])
+        if w[0] in ("p", "t", "a", "h", "al"):
+            # drop an ownership form (back to make_shared / make_unique)
+            for k in range(3 if w[0] == "h" else 2, 5 if w[0] == "h" else len(w)):
+                for m in re.finditer(r"U[cnaouk]\(", w[k]):
+                    yield " ".join(w[:k] + [w[k][:m.start()] + "U(" + w[k][m.end():]] + w[k + 1:])
             # replace one leaf by the shortest leaf of its kind
             t = self.table()
             for k in range(3 if w[0] == "h" else 2, 5 if w[0] == "h" else len(w)):
